@@ -5,7 +5,6 @@
 From Coq Require Import ZArith Lia.
 From HT Require Import Model.Str Model.SerializeFns Spec.SerializeSpec Proofs.SerializeProofs.
 
-Ltac Zify.zify_post_hook ::= Z.to_euclidean_division_equations.
 
 Lemma roundtrip_body_ctx : forall n s,
   (length s <= n)%nat -> Forall scalar s -> forall r z,
@@ -92,4 +91,95 @@ Proof.
   destruct (roundtrip_body_ctx (length v) v (le_n _) Hv _ z3 Hr1) as (r' & Hr' & Hd').
   exists r'. split; [exact Hr'|]. split; [reflexivity|].
   exists (34 :: z3). split; [reflexivity|]. cbn [app read_string]. exact Hd'.
+Qed.
+
+(* ------------------------------------------------------------------------------------ *)
+(* a flat object of string values in context                                              *)
+(* ------------------------------------------------------------------------------------ *)
+Lemma read_string_ctx s r z :
+  Forall scalar s -> ins (json_str_enc s ++ r) z ->
+  exists z', ins r z' /\ read_string z = Some (s, z').
+Proof.
+  intros Hs Hi. unfold json_str_enc in Hi. cbn [app] in Hi. rewrite <- app_assoc in Hi. cbn [app] in Hi.
+  apply (ins_no60_prefix [34]) in Hi as (z1 & -> & Hi);
+    [|cbn; intros [H|H]; [discriminate H|exact H]].
+  cbn [app read_string]. exact (roundtrip_body_ctx (length s) s (le_n _) Hs r z1 Hi).
+Qed.
+
+Lemma ins_length s s' : ins s s' -> (length s <= length s')%nat.
+Proof. induction 1; cbn; lia. Qed.
+
+Definition scalar_pair (kv : str * str) : Prop := Forall scalar (fst kv) /\ Forall scalar (snd kv).
+
+Lemma enc_members_length l : (length l <= length (enc_members l))%nat.
+Proof.
+  induction l as [|[k v] l IH]; [cbn; lia|].
+  cbn [enc_members]. unfold json_str_enc. rewrite !app_length. cbn [length].
+  destruct l as [|kv l']; [cbn [length]; lia|].
+  rewrite !app_length. cbn [length] in IH |- *. lia.
+Qed.
+
+Lemma not60_2 a b : a <> 60 -> b <> 60 -> ~ In 60 [a; b].
+Proof. intros Ha Hb [H|[H|H]]; [apply Ha; exact H|apply Hb; exact H|exact H]. Qed.
+
+Lemma dec_members_ctx : forall l kv0 fuel,
+  Forall scalar_pair (kv0 :: l) -> (length (kv0 :: l) <= fuel)%nat -> forall r z,
+  ins (enc_members (kv0 :: l) ++ 125 :: r) z ->
+  exists r1, ins r r1 /\ dec_members fuel z = Some (kv0 :: l, r1).
+Proof.
+  induction l as [|kv1 l IH]; intros [k v] fuel Hf Hl r z Hi;
+    (destruct fuel as [|f]; [cbn in Hl; lia|]);
+    inversion Hf as [|x xs [Hk Hv] Hf']; subst; cbn [fst snd] in Hk, Hv.
+  - cbn [enc_members] in Hi. rewrite app_nil_r in Hi. rewrite <- !app_assoc in Hi.
+    apply (read_string_ctx k) in Hi as (z1 & Hi & Hr1); [|exact Hk].
+    apply (ins_no60_prefix [58; 32]) in Hi as (z2 & -> & Hi); [|apply not60_2; discriminate].
+    apply (read_string_ctx v) in Hi as (z3 & Hi & Hr2); [|exact Hv].
+    apply (ins_no60_prefix [125]) with (y := r) in Hi as (z4 & -> & Hi);
+      [|cbn; intros [H|H]; [discriminate H|exact H]].
+    exists z4. split; [exact Hi|].
+    cbn [dec_members]. rewrite Hr1. cbn [app strip2]. change ((58 =? 58) && (32 =? 32)) with true. cbn iota.
+    rewrite Hr2. reflexivity.
+  - cbn [enc_members] in Hi. fold (enc_members (kv1 :: l)) in Hi. rewrite <- !app_assoc in Hi.
+    apply (read_string_ctx k) in Hi as (z1 & Hi & Hr1); [|exact Hk].
+    apply (ins_no60_prefix [58; 32]) in Hi as (z2 & -> & Hi); [|apply not60_2; discriminate].
+    apply (read_string_ctx v) in Hi as (z3 & Hi & Hr2); [|exact Hv].
+    apply (ins_no60_prefix [44; 32]) in Hi as (z4 & -> & Hi); [|apply not60_2; discriminate].
+    destruct (IH kv1 f Hf') with (r := r) (z := z4) as (r1 & Hr & Hd); [cbn [length] in *; lia|exact Hi|].
+    exists r1. split; [exact Hr|].
+    cbn [dec_members]. rewrite Hr1. cbn [app strip2]. change ((58 =? 58) && (32 =? 32)) with true. cbn iota.
+    rewrite Hr2. cbn [app]. rewrite Hd. reflexivity.
+Qed.
+
+Lemma flat_obj_ctx l r z :
+  Forall scalar_pair l -> ins (enc_flat_obj l ++ r) z ->
+  exists r1, ins r r1 /\ dec_flat_obj z = Some (l, r1).
+Proof.
+  intros Hf Hi. unfold enc_flat_obj in Hi. cbn [app] in Hi. rewrite <- app_assoc in Hi. cbn [app] in Hi.
+  apply (ins_no60_prefix [123]) in Hi as (z1 & -> & Hi);
+    [|cbn; intros [H|H]; [discriminate H|exact H]].
+  destruct l as [|kv0 l].
+  - cbn [enc_members app] in Hi.
+    apply (ins_no60_prefix [125]) with (y := r) in Hi as (z2 & -> & Hi);
+      [|cbn; intros [H|H]; [discriminate H|exact H]].
+    exists z2. split; [exact Hi|reflexivity].
+  - pose proof (ins_length _ _ Hi) as Hlen. rewrite app_length in Hlen.
+    pose proof (enc_members_length (kv0 :: l)) as Hm.
+    destruct (dec_members_ctx l kv0 (length z1) Hf) with (r := r) (z := z1) as (r1 & Hr & Hd);
+      [lia|exact Hi|].
+    exists r1. split; [exact Hr|].
+    (* the first character of z1 is the opening quote of the first key, not a closing brace *)
+    destruct kv0 as [k v]. cbn [enc_members] in Hi. unfold json_str_enc in Hi at 1. cbn [app] in Hi.
+    apply (ins_no60_prefix [34]) in Hi as (z2 & -> & _);
+      [|cbn; intros [H|H]; [discriminate H|exact H]].
+    cbn [app dec_flat_obj]. cbn [app] in Hd. exact Hd.
+Qed.
+
+Lemma flat_obj_in_context_with f t :
+  neutralise_shape f t = true ->
+  forall l r, Forall scalar_pair l ->
+  exists r1, ins r r1 /\ dec_flat_obj (neutralise_with f t (enc_flat_obj l ++ r)) = Some (l, r1).
+Proof.
+  intros Hsh l r Hl. destruct (shape_inv f t Hsh) as (tl & -> & ->).
+  unfold neutralise_with, replace_all.
+  apply flat_obj_ctx; [exact Hl|apply ins_replace].
 Qed.
